@@ -88,6 +88,7 @@ func main() {
 	}
 	fset := token.NewFileSet()
 	sites := []site{}
+	typeErrs := []string{}
 	nPkgs := 0
 	sort.Strings(order)
 	for _, ip := range order {
@@ -139,6 +140,7 @@ func main() {
 		conf.Check(ip, fset, all, info)
 		if nerr > 0 && len(p.CgoFiles) == 0 {
 			fmt.Fprintf(os.Stderr, "c19scan: %d type errors in %s (sites whose ranged expression could not be typed are reported as escaping)\n", nerr, ip)
+			typeErrs = append(typeErrs, fmt.Sprintf("%s (%d)", ip, nerr))
 		}
 		nPkgs++
 		for _, af := range files {
@@ -157,7 +159,7 @@ func main() {
 	})
 	enc := json.NewEncoder(os.Stdout)
 	enc.SetIndent("", " ")
-	enc.Encode(map[string]interface{}{"packages": nPkgs, "sites": sites})
+	enc.Encode(map[string]interface{}{"packages": nPkgs, "sites": sites, "type_errors": typeErrs})
 }
 
 func inScope(repo, dir string) bool {
